@@ -57,6 +57,10 @@ CHECKS = {
    "TLA+ product-trace acceptor OptionRel.tla evaluated by TLC on per-node-event output segments of the same parsed tree rendered under option sets A and A+one option (segments cut with the verif hook RenderNode and a recording BufWriter)",
    "For every document (Slots.tla product, repository examples, 3000 (60000) mutated documents, URL-scheme documents) and 5 extension sets (table alignment pinned to the attribute method, East-Asian suppression off) the tree is parsed once and rendered under all 8 combinations of {XHTML, HardWraps, Unsafe}; for each of the 12 edges of the option cube every node event's two segments are tokenised and TLC checks the exact rewrite: XHTML - every void element and only those gain ' />'; HardWraps - a <br> exactly before the newline of each Text with its soft-break flag and nothing else; Unsafe - differences only inside RawHTML/HTMLBlock events (placeholder versus bytes) or in the href/src value of Link/Image/AutoLink events whose unsafe URL is dangerous for the WHATWG front end. 2.0 million steps quick, deduplicated to ~3700 shapes.",
    "TLC, Json/IOUtils; hook RenderNode (-tags verif); strict tokenizer", "DESIGN.md 3.10, 5/C10"),
+ "C06": ("model_checking",
+   "TLA+ spec Instance.tla model-checked by TLC (Pure; negative controls) and every enumerated call history replayed on real instances with concrete document assignments; per-document outputs and tree digests judged by the TLA+ law AllSame of Meta.tla",
+   "TLC enumerates all histories of 3 (thorough: 4) calls over 4 abstract documents x {Convert, Parse+Render, ReRender} x {long-lived, fresh instance}; 40 (400) seeded assignments of concrete documents (a hand list exercising reference maps, heading ids, footnotes, typographer quotes, tables, fences, lists, attributes; repository and mutated documents) x 8 (32) configurations replay them; in addition ALL ordered pairs X-then-Y of a 240 (940) document set run as Convert(X); Parse+Render(Y); ReRender(Y) on one instance. Every output is compared with the fresh-instance output of the same document and the tree digest is compared around every Render. 514k API calls quick.",
+   "TLC, Json/IOUtils; tree digest = kinds, child counts, attributes, segments, flags", "DESIGN.md 3.3, 5/C06"),
 }
 
 NOT_YET = "check not built yet in this revision of /verif (see DESIGN.md section 5 for the planned TLA+ decision procedure)"
